@@ -15,7 +15,7 @@ res = {}
 try:
     r = sh(f"git -C /repo worktree add -q --detach {wt} HEAD")
     assert r.returncode == 0, r.stderr
-    env = {**os.environ, "PYTHONPATH": wt}
+    env = {**os.environ, "PYTHONPATH": wt, "OMP_NUM_THREADS": "1", "OPENBLAS_NUM_THREADS": "1", "MKL_NUM_THREADS": "1"}
     r = sh(f"git -C {wt} apply {patch}")
     res["applies"] = r.returncode == 0
     if not res["applies"]:
